@@ -928,6 +928,27 @@ class Mini:
                 return (recv + args[0]) & ((1 << INT_BITS[ty]) - 1)
             if nm == "pow" and isinstance(recv, int) and isinstance(args[0], int):
                 return self.wrapchk(recv ** args[0], ty, "pow")
+            if isinstance(recv, int) and not isinstance(recv, bool):
+                bits = INT_BITS[ty]
+                full = (1 << bits) - 1
+                if nm == "trailing_zeros":
+                    return bits if recv & full == 0 else ((recv & full) & -(recv & full)).bit_length() - 1
+                if nm == "leading_zeros":
+                    return bits - (recv & full).bit_length()
+                if nm == "wrapping_shr" and isinstance(args[0], int):
+                    return (recv & full) >> (args[0] % bits)
+                if nm == "wrapping_shl" and isinstance(args[0], int):
+                    return ((recv & full) << (args[0] % bits)) & full
+                if nm == "wrapping_sub" and isinstance(args[0], int):
+                    return (recv - args[0]) & full
+                if nm == "wrapping_mul" and isinstance(args[0], int):
+                    return (recv * args[0]) & full
+                if nm in ("checked_shr", "checked_shl") and isinstance(args[0], int):
+                    if args[0] >= bits:
+                        return "None"
+                    return ("Some", (recv >> args[0]) if nm == "checked_shr" else ((recv << args[0]) & full))
+                if nm == "is_power_of_two":
+                    return recv != 0 and recv & (recv - 1) == 0
             if nm == "count_ones" and isinstance(recv, int):
                 return bin(recv).count("1")
         if p.startswith("std::option::Option::<T>::"):
